@@ -259,6 +259,44 @@ OBLIGATIONS += [
        stubs=["alloc::fmt::format stubbed (error message text)"]),
 ]
 
+D9 = "db::brc20_prog_database::verif_d9::"
+_D9 = [  # (suffix, topics of log 0, topics of log 1, filter shape, quick?)
+    ("t12_none", 1, 2, "no topic filter", True), ("t12_s", 1, 2, "[x]", False), ("t12_ss", 1, 2, "[x, y]", True),
+    ("t12_v", 1, 2, "[[a, b]]", False), ("t12_sv", 1, 2, "[x, [a, b]]", True), ("t12_vs", 1, 2, "[[a], y]", False),
+    ("t01_ss", 0, 1, "[x, y]", False), ("t01_v", 0, 1, "[[a, b]]", True), ("t20_sv", 2, 0, "[x, [a, b]]", False),
+    ("t22_ss", 2, 2, "[x, y]", False), ("t22_sv", 2, 2, "[x, [a, b]]", False), ("t21_vs", 2, 1, "[[a], y]", False),
+]
+OBLIGATIONS += [
+    dict(id="D9." + sfx, engine="kani", harness=D9 + "d9_filter_" + sfx, props=["C18"],
+         tiers={k: v for k, v in (("quick", TD(900) if quick else None), ("thorough", TD(1800))) if v is not None},
+         what="get_logs returns exactly the logs of the receipt that match the address filter and the positional topic filter "
+              "(null = wildcard, list = alternatives, a position beyond the log's topics never matches a non-wildcard), in log order, each once",
+         bounds=f"one uncommitted receipt with two logs of {n0} and {n1} topics; topic filter shape {shape}; all addresses, topics, filter members "
+                "(x, y: null or any 32 bytes; a, b: any 32 bytes), address filter absent or any 20 bytes, receipt `to` / created address absent or any",
+         outside="null inside a list, the empty list, more than two logs / two filter positions, receipts that are only on disk, several receipts",
+         instantiation="Brc20ProgDatabase with the (block,index) and receipt tables over model stores, rows planted in their caches",
+         stubs=["rows planted in the table caches (verif_put_cache); cached height"])
+    for sfx, n0, n1, shape, quick in _D9
+]
+
+GDB = "global::database::verif_s::"
+_FMT = ["alloc::fmt::format stubbed (error message text)"]
+OBLIGATIONS += [
+    dict(id="S2.recorded", engine="kani", harness=GDB + "s2_validate_recorded", props=["C20"],
+         tiers={"quick": TD(600, stubbing=True), "thorough": TD(1200, stubbing=True)},
+         what="ConfigDatabase::validate(key, expected) is Ok iff the key is recorded and the recorded text equals the expected text exactly (length and content); a record never satisfies another key",
+         bounds="recorded and expected texts of 1-2 arbitrary ASCII characters (lengths symbolic), record present or absent (in-memory record)",
+         instantiation="ConfigDatabase over the store model", stubs=_FMT),
+    dict(id="S2.stored", engine="kani", harness=GDB + "s2_validate_stored", props=["C20"],
+         tiers={"quick": TD(600, stubbing=True), "thorough": TD(1200, stubbing=True)},
+         what="the same decision through the storage path of `get` (a reopened database): Ok for the stored text, Err for a different text, a prefix, another key, a missing record",
+         bounds="concrete texts (ab / ac / a), record present or absent on disk", instantiation="ConfigDatabase over the store model", stubs=_FMT),
+    dict(id="S2.set", engine="kani", harness=GDB + "s2_set_then_validate", props=["C20"],
+         tiers={"quick": TD(600, stubbing=True), "thorough": TD(1200, stubbing=True)},
+         what="`set` records (one storage write) exactly what `validate` accepts afterwards, also after the in-memory copy is gone (reopen)",
+         bounds="concrete key / text", instantiation="ConfigDatabase over the store model", stubs=_FMT),
+]
+
 ENG = "engine::engine::verif_e::"
 API = "api::types::verif_p::"
 LOCK = "engine::precompiles::get_locked_pkscript_precompile::verif_lock::"
@@ -334,6 +372,9 @@ OBLIGATIONS += [
     _s("D10", "logs_guard", "run", ["C18"], "get_logs range guard and defaults: from := latest, to := from; more than 6 blocks and reversed ranges are refused; otherwise exactly the key range [key(from,0), key(to+1,0)) of the (block,index) table is scanned; no arithmetic panic; an error of the height lookup is passed on",
        "all 64-bit from / to / latest with every Some/None combination (to < 2^64-1 for the scan and no-panic clauses); the function's entry up to the call of get_range (loop-free), every path enumerated; what the scan and the per-receipt filter then return is outside this obligation",
        ["db::brc20_prog_database::Brc20ProgDatabase::get_logs (prefix)"]),
+    _s("S1", "startup_guard", "run", ["C20"], "start-up guard validate_config_database: a non-empty directory is accepted only after validate(key, running value) returned Ok for each of the four recorded settings (database version, protocol version, network, trace recording); a failing validate / set / flush / open is never swallowed; a non-empty directory is never written; an empty one gets exactly these four pairs recorded (same pairing) and flushed; a path that is not a directory is refused",
+       "every path of the function (loop-free); the outcome of every std::fs call, of `the directory has an entry`, of ConfigDatabase::new and of every set / validate / flush is a free Boolean (all fault schedules and directory states); arguments traced to config statics / fields through value-preserving calls; callee bodies not entered",
+       ["global::database::validate_config_database"]),
     _s("D6", "guards", "run_reorg_guard", ["C01", "C05"], "database reorg(n): refused with a new error, before any table call or field write, iff the recorded maximum is more than 10 above n; otherwise the first table roll-back is reached; every table roll-back gets n; a failing read of the recorded maximum is passed on; no path returns Ok without rolling back",
        "all 64-bit n (n <= 2^64-11 for the clauses that add the window), every value of the recorded maximum incl. absent; every MIR path of the function (loop-free), callee bodies not entered, uninterpreted results unconstrained",
        ["db::brc20_prog_database::Brc20ProgDatabase::reorg", "global::config::MAX_REORG_HISTORY_SIZE"]),
@@ -402,17 +443,17 @@ OBLIGATIONS += [
 ]
 
 # properties whose check is registered in MANIFEST.json in this revision
-ACTIVE = ["C01", "C02", "C03", "C04", "C05", "C09", "C11", "C13", "C14", "C15", "C16", "C18"]
+ACTIVE = ["C01", "C02", "C03", "C04", "C05", "C09", "C11", "C13", "C14", "C15", "C16", "C18", "C20"]
 
 # Obligations whose harness exists but which did not finish under the tier caps on the unchanged tree
 # (DESIGN.md section 11.2): they are NOT registered - no tier runs them, no property counts them.
-UNREGISTERED = {"P3.string_len2", "D4o", "D5", "D6.refuse", "D6.pass", "D7.mono", "D7.follow", "D11"}
+UNREGISTERED = {"P3.string_len2", "S2.recorded", "S2.stored", "S2.set", "D4o", "D5", "D6.refuse", "D6.pass", "D7.mono", "D7.follow", "D11"}
 for _o in OBLIGATIONS:
     if _o["id"] in UNREGISTERED or _o["id"].startswith("D3.") or _o["id"].startswith("D4."):
         _o["tiers_unregistered"] = _o["tiers"]
         _o["tiers"] = {}
 
-PROPERTIES_CLAIMED = ["C01", "C02", "C03", "C04", "C05", "C09", "C11", "C13", "C14", "C15", "C16", "C18"]
+PROPERTIES_CLAIMED = ["C01", "C02", "C03", "C04", "C05", "C09", "C11", "C13", "C14", "C15", "C16", "C18", "C20"]
 
 
 def for_property(pid, tier):
